@@ -155,6 +155,11 @@ def format_field(ip, st, v, spec):
             f = reg.ufun("num_format_Int", ["Key", "Int"], "Key")
             return Opaque(T("(%s %s %s)" % (f, reg.key(spec).s, v.t.s), "Key"))
         raise U("str.format of an integer with spec %r" % spec)
+    if spec == "" and ((isinstance(v, Opaque) and v.sort == "Val") or
+                       (isinstance(v, Ref) and type(st.heap.get(v.cid)).__name__ == "ValCell")):
+        # a context value that is a string (obligation: modelling restriction) formats to itself
+        from .dictobj import item_key
+        return Opaque(item_key(ip, st, v, "str.format field"))
     raise U("str.format of %r" % (v,))
 
 
@@ -359,6 +364,11 @@ def str_join(ip, st, sep, pos, kws):
     if view.items is None:
         raise U("str.join over a sequence of symbolic length")
     items = list(view.items)
+    for i, x in enumerate(items):
+        if (isinstance(x, Opaque) and x.sort == "Val") or (isinstance(x, Ref) and type(st.heap.get(x.cid)).__name__ == "ValCell"):
+            # a context value that is a string (obligation: modelling restriction; a non-string is a TypeError in python)
+            from .dictobj import item_key
+            items[i] = Opaque(item_key(ip, st, x, "str.join item"))
     if any(not (isinstance(x, Str) or (isinstance(x, Opaque) and x.sort == "Key")) for x in items):
         raise U("str.join of values that are not strings (TypeError)")
     if not items:
